@@ -26,6 +26,7 @@ VFixpoint(ev) == IF ~Terminated(ev) THEN "bad:crash"
                  ELSE IF ev.lintexit # 0 THEN "bad:abilint-failed"
                  ELSE IF ev.h1 # ev.h2 \/ ev.diffexit # 0
                       THEN (IF KF_C03_void(ev) THEN "kf:C03-void-type-position"
+                            ELSE IF KF_C03_declonly(ev) THEN "kf:C03-member-function-of-declaration-only-class"
                             ELSE IF ev.h1 # ev.h2 THEN "bad:not-a-fixpoint" ELSE "bad:abilint--diff")
                  ELSE "ok"
 
